@@ -11,7 +11,8 @@ import (
 // Node is one inode of a generated tree. Children are kept in the order ReadDir lists them.
 type Node struct {
 	Name     string  `json:"n"`
-	Kind     string  `json:"k"` // dir | reg | sym | special
+	Kind     string  `json:"k"`              // dir | reg | sym | special
+	Bits     int     `json:"bits,omitempty"` // special: type bits 1 symlink, 2 device, 4 char device, 8 named pipe, 16 socket, 32 irregular
 	Size     int64   `json:"size,omitempty"`
 	Data     int     `json:"data,omitempty"` // .gitignore: 1-based index into Case.PatFiles
 	Children []*Node `json:"ch,omitempty"`
@@ -102,7 +103,17 @@ func (i info) Mode() fs.FileMode {
 	case "sym":
 		return fs.ModeSymlink | 0o777
 	case "special":
-		return fs.ModeNamedPipe | 0o644
+		b := i.n.Bits
+		if b == 0 {
+			b = 8
+		}
+		var m fs.FileMode
+		for bit, mode := range map[int]fs.FileMode{1: fs.ModeSymlink, 2: fs.ModeDevice, 4: fs.ModeCharDevice, 8: fs.ModeNamedPipe, 16: fs.ModeSocket, 32: fs.ModeIrregular} {
+			if b&bit != 0 {
+				m |= mode
+			}
+		}
+		return m | 0o644
 	}
 	return 0o644
 }
